@@ -14,7 +14,9 @@ pub struct P {
     pub single: bool,
     /// 0 = the cipher crate's own contexts; 1 / 2 = a caller-supplied rank-2 closure passed to
     /// `*_with_backend` / `process_with_backend`: full parallel groups through `*_par_blocks`, then the
-    /// remainder block by block (1) or through `*_tail_blocks` only if it is non-empty (2)
+    /// remainder block by block (1) or through `*_tail_blocks` only if it is non-empty (2);
+    /// 3 (keystream cores only) = `write_keystream_block` (single) / `write_keystream_blocks` into a scratch
+    /// buffer that the harness XORs into the data
     pub closure: u8,
 }
 pub fn p(len: usize, kind: Kind) -> P {
@@ -25,7 +27,7 @@ pub fn pc(len: usize, mode: u8) -> P {
     P { len, kind: Kind::InPlace, single: false, closure: mode }
 }
 pub fn ps(pieces: &[P]) -> String {
-    pieces.iter().map(|p| format!("{}{}{}{}", p.len, if p.single { "s" } else { "" }, match p.closure { 0 => "", 1 => "c", _ => "t" }, match p.kind { Kind::InPlace => "", Kind::B2b => "b", Kind::InOut => "x" })).collect::<Vec<_>>().join(",")
+    pieces.iter().map(|p| format!("{}{}{}{}", p.len, if p.single { "s" } else { "" }, match p.closure { 0 => "", 1 => "c", 2 => "t", _ => "w" }, match p.kind { Kind::InPlace => "", Kind::B2b => "b", Kind::InOut => "x" })).collect::<Vec<_>>().join(",")
 }
 
 pub struct FeOut {
@@ -48,11 +50,37 @@ pub struct Fe<'a> {
     pub multi: bool,
     /// has a single-block entry point (`P::single` allowed for pieces of exactly `gran` bytes)
     pub singles: bool,
+    /// highest `P::closure` value the front-end understands (0 = none)
+    pub max_closure: u8,
     pub kinds: Vec<Kind>,
     /// minimum total length accepted
     pub min_len: usize,
     /// run(key, iv, data, pieces, prefill): prefill is the initial content of separate output buffers
     pub run: FeRun<'a>,
+}
+
+impl Fe<'_> {
+    /// every call form this front-end offers for a piece of `n` granules
+    pub fn forms(&self, n: usize) -> Vec<P> {
+        let len = n * self.gran;
+        let mut v = vec![];
+        for &kind in &self.kinds {
+            v.push(P { len, kind, single: false, closure: 0 });
+            if n == 1 && self.singles {
+                v.push(P { len, kind, single: true, closure: 0 });
+            }
+        }
+        for c in 1..=self.max_closure.min(2) {
+            v.push(pc(len, c));
+        }
+        if self.max_closure >= 3 {
+            v.push(P { len, kind: Kind::InPlace, single: false, closure: 3 });
+            if n == 1 {
+                v.push(P { len, kind: Kind::InPlace, single: true, closure: 3 });
+            }
+        }
+        v
+    }
 }
 
 fn take<'b>(data: &'b [u8], off: &mut usize, n: usize) -> &'b [u8] {
@@ -75,6 +103,7 @@ pub fn fe_bm<'a>(cfg: &'a Cfg, d: &'a BlockModeDesc) -> Fe<'a> {
         gran: d.mbs,
         multi: true,
         singles: true,
+        max_closure: 2,
         kinds: KINDS.to_vec(),
         min_len: 0,
         run: Box::new(move |key, iv, data, pieces, prefill| {
@@ -112,6 +141,7 @@ pub fn fe_oneshot<'a>(cfg: &'a Cfg, d: &'a BlockModeDesc) -> Fe<'a> {
         gran: 1,
         multi: false,
         singles: false,
+        max_closure: 0,
         kinds: KINDS.to_vec(),
         min_len: 0,
         run: Box::new(move |key, iv, data, pieces, prefill| {
@@ -134,6 +164,7 @@ pub fn fe_buf<'a>(cfg: &'a Cfg, d: &'a BufCfbDesc) -> Fe<'a> {
         gran: 1,
         multi: true,
         singles: false,
+        max_closure: 0,
         kinds: vec![Kind::InPlace],
         min_len: 0,
         run: Box::new(move |key, iv, data, pieces, _prefill| {
@@ -159,6 +190,7 @@ pub fn fe_core<'a>(cfg: &'a Cfg, d: &'a CoreDesc, write: bool) -> Fe<'a> {
         gran: cfg.bs,
         multi: true,
         singles: true,
+        max_closure: if write { 2 } else { 3 },
         kinds: if write { vec![Kind::InPlace] } else { KINDS.to_vec() },
         min_len: 0,
         run: Box::new(move |key, iv, data, pieces, prefill| {
@@ -183,7 +215,15 @@ pub fn fe_core<'a>(cfg: &'a Cfg, d: &'a CoreDesc, write: bool) -> Fe<'a> {
                     out.extend(rf::x(inp, &ks));
                 } else {
                     let mut ob = outbuf(pc.kind, inp, prefill, o0);
-                    if pc.single {
+                    if pc.closure != 0 {
+                        let mut ks = prefill[o0..o0 + pc.len].to_vec();
+                        match (pc.closure, pc.single) {
+                            (3, true) => obj.write_block(&mut ks),
+                            (3, false) => obj.write_blocks(&mut ks),
+                            (m, _) => obj.write_blocks_closure(m, &mut ks),
+                        }
+                        ob = rf::x(inp, &ks);
+                    } else if pc.single {
                         obj.apply_block(pc.kind, inp, &mut ob);
                     } else if obj.apply_blocks(pc.kind, inp, &mut ob).is_err() {
                         return fail(format!("equal_length_call_refused/{}", d.mode), format!("{} apply_keystream_blocks_inout with equal lengths returned Err", d.ty));
@@ -205,6 +245,7 @@ pub fn fe_stream<'a>(cfg: &'a Cfg, d: &'a CoreDesc) -> Fe<'a> {
         gran: 1,
         multi: true,
         singles: false,
+        max_closure: 0,
         kinds: KINDS.to_vec(),
         min_len: 0,
         run: Box::new(move |key, iv, data, pieces, prefill| {
@@ -234,6 +275,7 @@ pub fn fe_cts<'a>(cfg: &'a Cfg, d: &'a CtsDesc, dir: Dir) -> Fe<'a> {
         gran: 1,
         multi: false,
         singles: false,
+        max_closure: 0,
         kinds: KINDS.to_vec(),
         min_len: cfg.bs,
         run: Box::new(move |key, iv, data, pieces, prefill| {
